@@ -48,7 +48,7 @@ def plan(tier, seed):
 
 def mandatory(tier):
     out = [f"loss/{n}" for n in POINTWISE + ["ncc_loss", "lcc_loss", "wlcc_loss", "mi_loss", "nmi_loss", "dice", "tversky"]]
-    out += [f"mask_shape/{m}" for m in MASK_SHAPES] + ["modules", "D/2", "D/3", "dice/absent_label", "wlcc/source_target_masks", "modules/norm_spellings"]
+    out += [f"mask_shape/{m}" for m in MASK_SHAPES] + ["modules", "D/2", "D/3", "dice/absent_label", "wlcc/source_target_masks", "modules/norm_spellings", "soft_mask", "overlap_reductions", "max_difference/nested"]
     return out
 
 
@@ -127,6 +127,12 @@ def run_item(ctx, item):
                     close("masked_none_is_mask_times_none", vn, none * me, f"{name}/masked_none", mask_shape=ms)
                     bm = m > 0
                     close("boolean_mask_equals_float_mask", fn(x, y, mask=bm, reduction="mean"), vm, f"{name}/bool_mask", mask_shape=ms)
+                    # soft (non-binary) weights: the masked mean is sum(w * loss) / sum(w)
+                    soft_m = m * t(rng.uniform(0.2, 1.0, size=tuple(m.shape)))
+                    se = soft_m.expand(shape)
+                    ctx.bucket("soft_mask")
+                    close("soft_mask_weights_the_pointwise_loss", fn(x, y, mask=soft_m, reduction="mean"), (none.double() * se.double()).sum() / se.double().sum(), f"{name}/soft_mask", mask_shape=ms)
+                    close("soft_mask_none_is_weight_times_none", fn(x, y, mask=soft_m, reduction="none"), none * se, f"{name}/soft_mask", mask_shape=ms)
     with ctx.guard("pointwise_options", key="exc/pointwise_options", **info):
         d = float(rng.uniform(0.05, 0.5))
         h = LF.huber_loss(x, y, delta=d, reduction="none")
@@ -292,6 +298,18 @@ def run_item(ctx, item):
         lg = (b1 * 2 - 1) * 20
         close("tversky_loss_with_logits_of_confident_prediction", LF.tversky_loss_with_logits(lg, b1), torch.zeros(()), "tversky/logits", rel=1e-4)
         close("tversky_index_with_logits", LF.tversky_index_with_logits(lg, b2, reduction="none"), tb, "tversky/logits", rel=1e-4)
+        # reductions of the *_with_logits variants and of the focal exponent: mean / sum of the 'none' output
+        lg2 = t(rng.normal(size=tuple(seg.shape)) * 2)
+        for fname, kw in (("tversky_loss_with_logits", {}), ("tversky_loss_with_logits", {"gamma": 2.0}), ("tversky_index_with_logits", {}), ("tversky_loss", {"gamma": 2.0}), ("dice_loss", {}), ("tversky_index", {"alpha": 0.3, "beta": 0.7})):
+            fn_ = getattr(LF, fname)
+            a_ = lg2 if fname.endswith("with_logits") else (seg * 0.8 + 0.1)
+            none_ = fn_(a_, seg2, reduction="none", **kw)
+            ctx.bucket("overlap_reductions")
+            close("overlap_mean_is_mean_of_none", fn_(a_, seg2, reduction="mean", **kw), none_.double().mean(), f"{fname}/reduction", options=kw)
+            close("overlap_sum_is_sum_of_none", fn_(a_, seg2, reduction="sum", **kw), none_.double().sum(), f"{fname}/reduction", options=kw)
+            if fname.startswith("tversky_loss"):
+                ti_ = getattr(LF, fname.replace("loss", "index"))(a_, seg2, reduction="none", **{k_: v_ for k_, v_ in kw.items() if k_ != "gamma"})
+                close("tversky_loss_is_complement_to_the_power_gamma", none_, (1 - ti_) ** kw.get("gamma", 1.0), f"{fname}/gamma", options=kw)
     # ------------------------------------------------------------------ module wrappers pass options through
     with ctx.guard("modules", key="exc/modules", **info):
         ctx.bucket("modules")
@@ -328,6 +346,13 @@ def run_item(ctx, item):
         close("implicit_norm_is_squared_max_difference", nm(x, y), LF.mse_loss(x, y, norm=max_difference(x, y).square()), "modules/implicit_norm")
         # every documented spelling of the norm option, for every module that takes it
         md2 = max_difference(x, y).square()
+        # documented meaning: the largest possible |s_i - t_j| - computed here from the extremes, for images whose ranges
+        # overlap, are disjoint, and are nested
+        for a_, b_, rel_ in ((x, y, "overlap"), (x, y + 10, "disjoint"), (x * 3, y * 0.2 + 1.0, "nested")):
+            want_md = max(float(a_.max() - b_.min()), float(b_.max() - a_.min()))
+            ctx.bucket("max_difference/" + rel_)
+            close("max_difference_is_largest_possible_difference", max_difference(a_, b_), want_md, "max_difference", relation=rel_)
+            close("implicit_norm_uses_largest_possible_difference", LM.MSE(a_, b_)(a_, b_), LF.mse_loss(a_, b_, norm=want_md**2), "modules/implicit_norm", relation=rel_)
         for mname, cls, fn, ekw in (("MSE", LM.MSE, LF.mse_loss, {}), ("SSD", LM.SSD, LF.ssd_loss, {}), ("MAE", LM.MAE, LF.mae_loss, {}), ("HuberImageLoss", LM.HuberImageLoss, LF.huber_loss, {"delta": d}), ("SmoothL1ImageLoss", LM.SmoothL1ImageLoss, LF.smooth_l1_loss, {"beta": d})):
             ctx.bucket("modules/norm_spellings")
             close("norm_true_uses_the_images", cls(x, y, norm=True, **ekw)(x, y), fn(x, y, norm=md2, **ekw), f"modules/{mname}/norm", module=mname, norm="True")
